@@ -3,11 +3,12 @@ from vlib.core import Case, hx
 from vlib import bip39
 
 ID = "C01"
+NEEDS_CLI = True
 RULE = ("op mn.parse <phrase> (returns printed form, length, Display) on: word counts 0..40 of valid words; every word of the list "
         "(quick: each word once at a random position of a valid phrase; thorough: each word at each of 24 positions); all 2048 candidates "
         "for the final word of a random prefix for each count 12..24 (quick: counts 12 and 24 in full, 128 candidates for the others); random entropies of "
         "the five sizes via mn.random with injected entropy (parse∘print round trip); whitespace layouts; malformed stream. "
-        "non-trivial = distinct phrase that reaches the checksum comparison (12..24 known words); judge = executable Spec.Bip39.Valid")
+        "a random sample of the cases is re-run through every sub-command that reaches the same code (vlib/routes.py); non-trivial = distinct phrase that reaches the checksum comparison (12..24 known words); judge = executable Spec.Bip39.Valid")
 EXHAUSTIVE_SWEEPS = {
     "quick": ["word counts 0..40", "all 2048 words (once each)", "all 2048 final-word candidates for 12- and 24-word prefixes"],
     "thorough": ["word counts 0..40", "all 2048 words x 24 positions", "all 2048 final-word candidates for every count 12..24"]}
@@ -91,6 +92,8 @@ def gen(rng, tier):
         for ent in pats:
             cases.append(Case("mn.random %d %s" % (n, hx(ent)), tags=("from-entropy:%d" % n,)))
             add(" ".join(bip39.from_entropy(ent)), "roundtrip:%d" % n)
+    from vlib import routes
+    cases += routes.add_routes(cases, rng, 80, tier)
     return cases
 
 
@@ -104,3 +107,8 @@ def shrink_candidates(line):
         yield "mn.parse " + hx(" ".join(ws[:i] + ws[i + 1:]))
     if s != " ".join(s.split()):
         yield "mn.parse " + hx(" ".join(s.split()))
+
+
+def run_cli(case):
+    from vlib import cli
+    return cli.run_cli(case)
